@@ -18,7 +18,9 @@
      run "A2"  the same calls again  — must be event-for-event equal to A (determinism);
      run "B"   the same calls with the digest of ONE reseed call (number `div`) replaced —
                equal to A before that call, and afterwards no result may be read from a digest that
-               a result of A was read from; drawn elements of fields >= 62 bits must differ too.
+               a result of A was read from; when the history declares its hasher a real hash function
+               (`oracle` = 1 in the end event: outputs behave like random bytes) drawn elements of
+               fields >= 62 bits must differ too.  Nothing else depends on which hasher made the facts.
    Events: begin, new, reseed, draw, ints, lz, end.  The trace is accepted iff every event is
    explained; otherwise the postcondition prints the index of the first unexplained event. *)
 EXTENDS Integers, Sequences, FiniteSets, TLC, Json, IOUtils, Bytes
@@ -98,7 +100,7 @@ NewCoin(e) ==
 
 \* run B against run A: same calls except the digest of reseed call number div
 SameCall(x, y) == x.op = y.op /\ x.seed = y.seed
-Diverges(oa, ob, div) ==
+Diverges(oa, ob, div, oracle) ==
   /\ Len(oa) = Len(ob)
   /\ div \in 2..Len(oa)
   /\ \A k \in 1..(div - 1) : oa[k] = ob[k]
@@ -106,7 +108,7 @@ Diverges(oa, ob, div) ==
   /\ \A k \in (div + 1)..Len(oa) :
         /\ SameCall(oa[k], ob[k])
         /\ Range(oa[k].src) \cap Range(ob[k].src) = {}
-        /\ (oa[k].op.op = "draw" /\ C!Width(f) >= 8 /\ oa[k].r.t = "ok" /\ ob[k].r.t = "ok")
+        /\ (oracle = 1 /\ oa[k].op.op = "draw" /\ C!Width(f) >= 8 /\ oa[k].r.t = "ok" /\ ob[k].r.t = "ok")
               => oa[k].r.v # ob[k].r.v
 
 Begin(e) == /\ f' = e.f
@@ -117,7 +119,7 @@ Begin(e) == /\ f' = e.f
 End(e) == /\ obs # <<>>
           /\ CASE e.run = "A"  -> obsA' = obs
                [] e.run = "A2" -> obs = obsA /\ UNCHANGED obsA
-               [] e.run = "B"  -> Diverges(obsA, obs, e.div) /\ UNCHANGED obsA
+               [] e.run = "B"  -> Diverges(obsA, obs, e.div, e.oracle) /\ UNCHANGED obsA
           /\ UNCHANGED <<f, st, obs>>
 
 Explains(e) ==
